@@ -17,7 +17,9 @@ import (
 // The thorough tier re-runs the property's rules on variants of /repo's current tree, each with one
 // recorded change applied (the confirmed seeded breakages under /verif/seeded, the hand-made mutations
 // and the reversed defect repairs under /verif/mutations). Every variant is still only analysed, never
-// executed. A variant whose patch no longer applies to the current tree is reported as not applicable.
+// executed. Patches named benign-* are behaviour-preserving edits (renames, restructured loops, an equivalent
+// form of a test): the rules must stay silent on them. A variant whose patch no longer applies to the current
+// tree is reported as not applicable.
 // The result goes into the evidence; it never changes the verdict on /repo itself.
 
 type variant struct {
@@ -139,9 +141,23 @@ func selfTest(id string) (results []variantResult, summary string) {
 				c.Stdout, c.Stderr = &buf, &buf
 				c.Run()
 				outS := buf.String()
+				benign := strings.Contains(filepath.Base(v.Patch), "benign-")
 				switch {
 				case strings.Contains(outS, "UNDECIDED"):
 					res.Status = "does-not-type-check"
+				case benign && !strings.Contains(outS, "VIOLATION property="):
+					res.Status = "silent-as-expected"
+				case benign:
+					res.Status = "false-alarm"
+					for _, l := range strings.Split(outS, "\n") {
+						if strings.HasPrefix(strings.TrimSpace(l), "rule ") {
+							res.Rule = strings.TrimSpace(l)
+							if len(res.Rule) > 200 {
+								res.Rule = res.Rule[:200]
+							}
+							break
+						}
+					}
 				case strings.Contains(outS, "VIOLATION property="):
 					res.Status = "detected"
 					for _, l := range strings.Split(outS, "\n") {
@@ -174,6 +190,6 @@ func selfTest(id string) (results []variantResult, summary string) {
 	for _, r := range results {
 		cnt[r.Status]++
 	}
-	summary = fmt.Sprintf("%d recorded variants of the current tree analysed: %d detected, %d missed, %d not applicable to this tree, %d not type-checking", len(vs), cnt["detected"], cnt["missed"], cnt["not-applicable"], cnt["does-not-type-check"])
+	summary = fmt.Sprintf("%d recorded variants of the current tree analysed: %d breaking ones detected, %d missed; %d behaviour-preserving ones silent, %d false alarms; %d not applicable to this tree, %d not type-checking", len(vs), cnt["detected"], cnt["missed"], cnt["silent-as-expected"], cnt["false-alarm"], cnt["not-applicable"], cnt["does-not-type-check"])
 	return results, summary
 }
